@@ -11,7 +11,8 @@ from pipeline import correspondence, field, parse_loc, pipe_req
 from props.graphfacts import conclude, replay  # noqa: F401
 
 THEOREMS = ["Rva.undefined_label_reported", "Rva.undefined_names_spec", "Rva.no_undefined_no_error", "Rva.addName_mem", "Rva.cfgErrDiag_located",
-            "Rva.buildLoop_spec", "Rva.duplicate_label_reported", "Rva.no_duplicate_no_error", "Rva.buildCfg_total"]
+            "Rva.buildLoop_spec", "Rva.duplicate_label_reported", "Rva.no_duplicate_no_error", "Rva.buildCfg_total",
+            "Rva.directions_error", "Rva.markStep_error", "Rva.markStep_error_no_return", "Rva.pipeline_failure_sources"]
 
 LABEL_DEF = re.compile(r"(?m)^\s*([A-Za-z_][A-Za-z0-9_]*):")
 
@@ -56,7 +57,7 @@ def mutate(rng, text):
 
 def run(res, tier, seed):
     rng = random.Random(seed)
-    proof_ok = proof_stage(res, "Rva.Proofs.C16", THEOREMS)
+    proof_ok = proof_stage(res, "Rva.Proofs.C16b", THEOREMS, extra_modules=["Rva.Proofs.C16"])
     n = 150 if tier == "quick" else 12000
     cases = []
     for _ in range(n):
